@@ -184,3 +184,74 @@ Example C14_ex_text : forall pf un,
   parse_byte_list pf un [39; 39] = Ok [] /\
   parse_byte_list pf un (spell_bytes 3 [0; 39; 255]) = Ok [0; 39; 255].
 Proof. intros pf un. vm_compute. repeat split; reflexivity. Qed.
+
+(* ------------------------------------------------------------------------
+   First stage: LEXING of the spelling (the lexer model of Model/Lexer.v, for
+   every classification [un]/[ua] of the non-ASCII characters).  The lexer
+   followed by the literal parser is the identity on values. *)
+From GV Require Import Gen.TokenTypes Model.Lexer Proofs.C14.LexSpelling.
+
+(* The spelling of a string lexes to exactly ONE token, of type CharList, at
+   position (0,0), whose text is the whole spelling -- for the one-quote form
+   (any string, also the empty one) and for every form with three or more
+   quotes (non-empty strings).  [s] ranges over all lists of code points. *)
+Theorem C14_lex_string : forall un ua q s, q = 1 \/ (3 <= q /\ s <> []) ->
+  lex un ua (spell_string q s) = Ok [mkTok (spell_string q s) TT_CharList 0 0].
+Proof. exact lex_string_full. Qed.
+Print Assumptions C14_lex_string.
+
+(* ... hence lexing and then parsing the token's text yields the string *)
+Theorem C14_string_end_to_end : forall un ua pf q s, q = 1 \/ (3 <= q /\ s <> []) ->
+  exists t, lex un ua (spell_string q s) = Ok [t] /\ tok_type t = TT_CharList /\ tok_row t = 0 /\ tok_col t = 0 /\
+            parse_char_list pf (tok_text t) = Ok s.
+Proof. exact string_end_to_end. Qed.
+Print Assumptions C14_string_end_to_end.
+
+(* The literal neither swallows nor loses what follows it: with ANY input
+   [rest] behind the spelling, the first next() returns the literal token,
+   leaves exactly [rest] unread and the lexer between tokens (state NoToken,
+   quote counters 0, no error) ... *)
+Theorem C14_lex_string_then_next : forall un ua q s rest, (q = 1 \/ 3 <= q) -> s <> [] ->
+  exists l1, internal_next un ua init_lexer (spell_string q s ++ rest) =
+             Ok (l1, rest, Some (mkTok (spell_string q s) TT_CharList 0 0)) /\ idle l1.
+Proof. exact next_string_then. Qed.
+Print Assumptions C14_lex_string_then_next.
+
+(* ... so whenever the whole input lexes, its first token is the literal *)
+Theorem C14_lex_string_then : forall un ua q s rest ts, (q = 1 \/ 3 <= q) -> s <> [] ->
+  lex un ua (spell_string q s ++ rest) = Ok ts ->
+  exists ts', ts = mkTok (spell_string q s) TT_CharList 0 0 :: ts'.
+Proof. exact lex_string_then. Qed.
+Print Assumptions C14_lex_string_then.
+
+(* The general rule behind these (both kinds of quote, [KChar] = double quote,
+   [KByte] = apostrophe): n quotes (n = 1 or n >= 3), a non-empty body without that
+   quote character -- backslashes are ordinary characters to the lexer --, n
+   quotes: one token. *)
+Theorem C14_lex_literal : forall un ua k n body, (1 <= n)%nat -> n <> 2%nat -> body <> [] -> ~ In (kq k) body ->
+  lex un ua (literal_text k n body) = Ok [mkTok (literal_text k n body) (kty k) 0 0].
+Proof. exact lex_literal. Qed.
+Print Assumptions C14_lex_literal.
+
+(* The quote forms the lexer does not read as one token: two quotes on each
+   side are the empty literal followed by other tokens, and an empty body
+   between three or more quotes is one unterminated opening run. *)
+Theorem C14_lex_string_two_quotes_refuted : forall un ua,
+  lex un ua (spell_string 2 [97]) =
+  Ok [mkTok [34; 34] TT_CharList 0 0; mkTok [97] TT_Identifier 0 2; mkTok [34; 34] TT_CharList 0 3].
+Proof. exact lex_string_two_quotes_refuted. Qed.
+Print Assumptions C14_lex_string_two_quotes_refuted.
+
+Theorem C14_lex_string_empty_triple_refuted : forall un ua,
+  lex un ua (spell_string 3 []) = Err E_Unterminated.
+Proof. exact lex_string_empty_triple_refuted. Qed.
+Print Assumptions C14_lex_string_empty_triple_refuted.
+
+Example C14_ex_lex_string : forall un ua,
+  lex un ua (spell_string 3 [233; 34; 10; 92; 128512]) =
+    Ok [mkTok (spell_string 3 [233; 34; 10; 92; 128512]) TT_CharList 0 0] /\
+  lex un ua (spell_string 1 []) = Ok [mkTok [34; 34] TT_CharList 0 0] /\
+  (* two one-character literals joined by + : three tokens, the literals intact *)
+  lex un ua (spell_string 1 [97] ++ 43 :: spell_string 1 [98]) =
+    Ok [mkTok [34; 97; 34] TT_CharList 0 0; mkTok [43] TT_PlusSign 0 3; mkTok [34; 98; 34] TT_CharList 0 4].
+Proof. intros un ua. vm_compute. repeat split; reflexivity. Qed.
